@@ -5,3 +5,4 @@ import SkModel.Result
 import SkModel.Spec.Simple
 import SkModel.Spec.Sequence
 import SkModel.Proofs.Solo
+import SkModel.Store
